@@ -62,6 +62,18 @@ def gen_base(rng, corner=None):
     elif corner == 'all_late':
         for c in sc['cons']:
             c['start'] = 9
+    elif corner == 'burst':     # several producers put in the same time step while consumers wait
+        t = rng.choice([1, 2, 3])
+        sc['prods'], x = [], 1
+        for _ in range(rng.choice([2, 3])):
+            puts = []
+            for j in range(rng.choice([1, 2, 3])):
+                puts.append([t if j == 0 else rng.choice([0, 0, 1]), x])
+                x += 1
+            sc['prods'].append(dict(puts=puts, until=False))
+        for c in sc['cons']:
+            c['start'] = rng.choice([0, 0, 1, t])
+            c['kind'] = rng.choice(['single', 'single', 'iter'])
     elif corner == 'same_time':
         for c in sc['cons']:
             c['start'] = 0
@@ -394,7 +406,7 @@ def scenarios(ctx):
     total = ctx.n(320, 9000)
     made = 0
     for b in range(nbase):
-        corner = corners[b % len(corners)] if b % 6 == 5 else None
+        corner = corners[b % len(corners)] if b % 6 == 5 else 'burst' if b % 6 == 2 else None
         base0 = gen_base(rng, corner)
         ctx.bump('corner:%s' % corner if corner else 'corner:none')
         yield base0                                  # the fault-free run
